@@ -20,7 +20,7 @@ BF_PATTERNS = [
 SCALES = [None, 0.25, 0.5, 1.0, 0, 0.0, 1.5, -0.5, 1]
 R_PRINT = [5, len(BF_PATTERNS), 16, len(SCALES), 2]
 N_PRINT = prod(R_PRINT)
-LINES = [(["K-", "pi+"], True, "PHSP", ""), (["K_S0", "pi0", "pi0"], False, "D_DALITZ", ""), (["rho0", "gamma"], True, "HELAMP", "1.0 0.5 -1.0"),
+LINES = [(["K-", "pi+"], True, "PHSP", ""), (["K_S0", "pi0", "pi0"], False, "D_DALITZ", ""), (["rho0", "gamma"], True, "HELAMP", "1.0 0.0 -1.0 0"),
          ([], False, "PHSP", ""), (["e+", "e-", "a_b", "Xi(c).b"], False, "SVS_CP", "beta dm 1.0")]
 
 
@@ -90,3 +90,4 @@ def body_print(sel: int) -> bool:
     if details(p, mother) != before:
         return fail("printing altered the stored values")
     return True
+
